@@ -304,3 +304,21 @@ func (p *Program) globalBytes(g *ssa.Global) ([]byte, bool, bool) {
 	}
 	return out, isSlice, true
 }
+
+// globalIsNewError reports whether a package-level variable of interface type is initialised by errors.New(...).
+func (p *Program) globalIsNewError(g *ssa.Global) bool {
+	pt := g.Type().(*types.Pointer).Elem()
+	if _, ok := pt.Underlying().(*types.Interface); !ok {
+		return false
+	}
+	call, ok := p.globalInit(g).(*ast.CallExpr)
+	if !ok {
+		return false
+	}
+	sel, ok := call.Fun.(*ast.SelectorExpr)
+	if !ok || sel.Sel.Name != "New" {
+		return false
+	}
+	id, ok := sel.X.(*ast.Ident)
+	return ok && id.Name == "errors"
+}
